@@ -34,5 +34,10 @@ ROWS = {
   "property-based testing (rapid): differential in-memory reader vs generated chunk schedules behind an instrumented io.ReadSeeker",
   "Samples and encoder output in every container (as is, truncated, hostile edits) are decoded through every entry point once from memory and once through a reader that delivers generated chunk sizes (one byte, 1..7, 1..4096, buffer-boundary sizes, data together with EOF); digest and error text must be equal; every sample x entry is also run deterministically under the extreme schedules.",
   "Trusted: the instrumented reader in internal/worker (legal per io.Reader). Inputs <= 256 KiB."),
+
+ "C15": ("exploration",
+  "property-based testing (rapid): differential over log levels in an isolated worker process with fd 1/2 captured",
+  "Each generated input (samples, encoder output, truncations, hostile edits, CR3 trees with CTBO counts/indices beyond the logged arrays) is decoded under the default configuration and under SetLogger(in-memory writer, L) for eight levels; digest and error must be equal, no level may panic or kill the process, and the bytes that reached the worker's fd 1 / fd 2 during the default-configuration call must be 0.",
+  "Trusted: the worker protocol (fd 3/4) and file-size measurement of fd 1/2; the worker is a bare main that prints nothing itself."),
 }
 NOT_APPLICABLE = {}
